@@ -321,9 +321,10 @@ theorem batches_gen (fields : List Field) (h0 : newRoot fields = .ok r0) (hsafe 
 end
 
 /-- **batches (R1 level).** In any history — records of ANY shape, raw key/value call streams included (a Map builder
-refuses the non-alternating ones since repo fix bcc3416; the former hypothesis `rawOK` is gone) — build k sees a well-formed root holding exactly as many rows as were
-added since build k-1 (each column at that length, `C01.runRows_rows`), returns `finishFields` of that state, and
-the builder continues from the fresh builder of the schema. -/
+refuses the non-alternating ones since repo fix bcc3416; the former hypothesis `rawOK` is gone) — build k sees a
+well-formed root holding exactly as many rows as were added since build k-1 (each column at that length,
+`C01.runRows_rows`), returns `finishFields` of that state, and the builder continues from the fresh builder of the
+schema. -/
 theorem batches (ext : Ext) (fields : List Field) (r0 : B) (h0 : newRoot fields = .ok r0) (hsafe : Safe r0)
     (ops : List Op) (outs : List (B × List Arr)) (fin : B)
     (h : run ext r0 ops = .ok (outs, fin)) :
